@@ -126,7 +126,7 @@ def join_injective_lemmas():
     return out
 
 
-def make_name_obligations():
+def make_name_obligations(max_arity=3):
     """FlattenedInstance.make_name(): ':'.join of the path's instance names ('_' for an unnamed one), paths of 1-3"""
     from pyvc import loader
     from hdl21.flatten import FlattenedInstance
@@ -134,7 +134,7 @@ def make_name_obligations():
     ext = loader.extract(key)
     info = {"sha": ext.sha, "lines": ext.lines, "path": ext.path, "paths": 0, "scenarios": 0, "unsupported": []}
     obs = []
-    for arity in (1, 2, 3):
+    for arity in range(1, max_arity + 1):
         eng = mk_engine(schema_extra={"path": "py"}, field_classes=FIELD_CLASSES)
         st = eng.new_state()
         me = sym_ref(st, "self", (FlattenedInstance,))
